@@ -10,8 +10,10 @@ import (
 	"errors"
 	"fmt"
 	"io"
+	"os"
 	"sort"
 	"strings"
+	"time"
 
 	"github.com/goplus/xgo/x/jsonrpc2"
 	"verif/engine"
@@ -513,9 +515,126 @@ func scenarios() []*vrt.Scenario {
 }
 
 func main() {
+	if os.Getenv("C39_BFS_TRY") != "" {
+		var pr bfsParams
+		var mc int
+		fmt.Sscanf(os.Getenv("C39_BFS_TRY"), "%d,%d,%d,%d,%d,%d,%d", &pr.depth, &mc, &pr.maxIn, &pr.schedDep, &pr.schedB, &pr.pairDep, &pr.pairB)
+		pr.maxCalls = int64(mc)
+		t0 := time.Now()
+		nodes, tr := enumerate(pr.depth, pr.maxCalls, pr.maxIn)
+		fmt.Printf("model: states=%d transitions=%d maxdepth=%d in %v\n", len(nodes), tr, nodes[len(nodes)-1].depth, time.Since(t0))
+		st := runShard(nodes, pr, 0, 1, nil)
+		fmt.Printf("impl: transitions=%d schedStates=%d schedExecs=%d pairs=%d pairExecs=%d classes=%v in %v\n", st.Transitions, st.SchedStates, st.SchedExecs, st.Pairs, st.PairExecs, st.PairClasses, time.Since(t0))
+		for _, f := range st.Found {
+			fmt.Printf("FOUND %s %v %v: %s\n   %s\n", f.Kind, f.Events, f.Choices, f.V.Key, f.V.Detail)
+		}
+		return
+	}
 	c := engine.New("C39", "model_checking")
+	smode.Extras = append(smode.Extras, bfsExtra())
 	smode.Main(c, scenarios(), 1, 2,
-		"Scenarios on the real x/jsonrpc2 Connection (rewritten onto vrt) through its public API over an in-memory pipe: S1 two concurrent calls answered in reverse order; S2 Call || Close; S3 Call || disconnect (3 timings); S4 blocking handler || cancel notification via Preempter || release || Close; S5 ErrAsyncResponse + Respond || Close; S6 two connections with a call-back, both closed; S7 Notify || Close; S8 unknown and duplicate response ids; S9 reused request id; S10 write failure.",
+		"Scenarios on the real x/jsonrpc2 Connection (rewritten onto vrt) through its public API over an in-memory pipe: S1 two concurrent calls answered in reverse order; S2 Call || Close; S3 Call || disconnect (3 timings); S4 blocking handler || cancel notification via Preempter || release || Close; S5 ErrAsyncResponse + Respond || Close; S6 two connections with a call-back, both closed; S7 Notify || Close; S8 unknown and duplicate response ids; S9 reused request id; S10 write failure. "+
+			"Explicit-state search (appendix H): the reachable states of the connection state machine under the event menu {Call, Notify, peer response (own ids, unknown id), peer call / asynchronously answered call (ids 7, 8), peer notification, handler completion, Respond, Cancel, Close, peer EOF, write failure} are enumerated breadth-first to the fixpoint; every transition is executed on a fresh real Connection (shortest path replayed, then the event, then quiescence) and the private in-flight state read by reflection, every Await outcome, the wire log and the return values are compared with the reference model after every event; shallow states are additionally run under every schedule within the preemption bound, and every ordered pair of enabled events is started concurrently from every shallow state and judged by the state invariants.",
 		[]string{"oracle per execution: every Await returns exactly once, with an error or the reply carrying its own id (and the scenario's allowed outcomes); no internal error/panic; every incoming id is answered at most once on the wire; Close never returns while a handler body runs; no thread is left blocked",
-			"the two map iterations of conn.go that only retire/cancel entries are iterated in sorted order (their order is not observable to the property)"})
+			"the two map iterations of conn.go that only retire/cancel entries are iterated in sorted order (their order is not observable to the property)",
+			"explicit-state search: states are identified by the reference model's canonical state, which is sound because every state reached on the implementation is first checked to project exactly onto that model state; bounds: outgoing calls per history and incoming requests in flight as recorded in bfs_bounds; Respond is issued only where the API allows it (asynchronously answered calls) or for an id that is not in flight (documented internal error)"})
+}
+
+// ---------------- explicit-state search as extra blocks of the same job ----------------
+
+const bfsShards = 48
+
+func bfsTier(thorough bool) bfsParams {
+	if thorough {
+		return bfsParams{depth: 99, maxCalls: 3, maxIn: 4, schedDep: 4, schedB: 1, pairDep: 2, pairB: 1}
+	}
+	return bfsParams{depth: 99, maxCalls: 2, maxIn: 3, schedDep: 3, schedB: 1, pairDep: 1, pairB: 1}
+}
+
+func encodeEvs(evs []event) []int {
+	out := make([]int, len(evs))
+	for i, e := range evs {
+		out[i] = e.code()
+	}
+	return out
+}
+
+func bfsExtra() *smode.Extra {
+	return &smode.Extra{
+		Name:      "B-",
+		NumBlocks: bfsShards,
+		Run: func(w *engine.W, blk int, thorough bool, deadline time.Time) {
+			if !w.Item(smode.Case{Scenario: fmt.Sprintf("B-shard-%d", blk)}) {
+				return
+			}
+			pr := bfsTier(thorough)
+			nodes, tr := enumerate(pr.depth, pr.maxCalls, pr.maxIn)
+			st := runShard(nodes, pr, blk, bfsShards, func() bool { return time.Now().After(deadline) })
+			if blk == 0 {
+				w.HistN("bfs:model_states", int64(len(nodes)))
+				w.HistN("bfs:model_transitions", int64(tr))
+				w.HistN("bfs:max_depth", int64(nodes[len(nodes)-1].depth))
+				w.HistN(fmt.Sprintf("bfs:bounds:maxCalls=%d,maxIncoming=%d,scheduleDepth=%d/bound=%d,pairDepth=%d/bound=%d", pr.maxCalls, pr.maxIn, pr.schedDep, pr.schedB, pr.pairDep, pr.pairB), 1)
+			}
+			w.HistN("bfs:transitions_executed", st.Transitions)
+			w.HistN("bfs:schedule_states", st.SchedStates)
+			w.HistN("bfs:schedule_executions", st.SchedExecs)
+			w.HistN("bfs:pairs", st.Pairs)
+			w.HistN("bfs:pair_executions", st.PairExecs)
+			for k, v := range st.PairClasses {
+				w.HistN("bfs:pair_outcome_"+k, v)
+			}
+			if st.Capped {
+				w.HistN("capped:bfs-deadline", 1)
+			}
+			for i := int64(1); i < st.Transitions+st.SchedExecs+st.PairExecs; i++ {
+				w.CountEval()
+			}
+			for _, f := range st.Found {
+				sc := "B-BFS"
+				evs := f.Events
+				if f.Kind == "PAIR" {
+					sc = "B-PAIR"
+				}
+				w.Fail(smode.Case{Scenario: sc, Events: encodeEvs(evs), Choices: f.Choices},
+					&engine.Failure{Key: sc + ":" + f.V.Key, What: f.V.What, Detail: fmt.Sprintf("events=%v choices=%v\n%s", evs, f.Choices, f.V.Detail)})
+			}
+		},
+		Replay: func(k smode.Case) *engine.Failure {
+			var evs []event
+			for _, c := range k.Events {
+				evs = append(evs, decodeEv(c))
+			}
+			var sc *vrt.Scenario
+			if k.Scenario == "B-PAIR" && len(evs) >= 2 {
+				sc = pairScenario(evs[:len(evs)-2], evs[len(evs)-2], evs[len(evs)-1])
+			} else {
+				sc = bfsScenario(evs)
+			}
+			if _, v := vrt.RunOnce(sc, k.Choices); v != nil {
+				return &engine.Failure{Key: k.Scenario + ":" + v.Key, What: v.What, Detail: v.Detail}
+			}
+			return nil
+		},
+		Fold: func(c *engine.Check, h map[string]int64) {
+			c.Extra["bfs_model_states"] = h["bfs:model_states"]
+			c.Extra["bfs_model_transitions"] = h["bfs:model_transitions"]
+			c.Extra["bfs_transitions_executed_on_implementation"] = h["bfs:transitions_executed"]
+			c.Extra["bfs_max_depth_fixpoint"] = h["bfs:max_depth"]
+			c.Extra["bfs_schedule_states"] = h["bfs:schedule_states"]
+			c.Extra["bfs_schedule_executions"] = h["bfs:schedule_executions"]
+			c.Extra["bfs_concurrent_pairs"] = h["bfs:pairs"]
+			c.Extra["bfs_concurrent_pair_executions"] = h["bfs:pair_executions"]
+			c.Extra["bfs_pair_outcomes_equal_to_a_sequential_order"] = h["bfs:pair_outcome_serialisable"]
+			c.Extra["bfs_pair_outcomes_equal_to_neither_order_(judged_by_invariants_only)"] = h["bfs:pair_outcome_neither"]
+			for k := range h {
+				if strings.HasPrefix(k, "bfs:bounds:") {
+					c.Extra["bfs_bounds"] = strings.TrimPrefix(k, "bfs:bounds:")
+				}
+			}
+			if h["bfs:model_transitions"] != h["bfs:transitions_executed"] {
+				c.Cap(fmt.Sprintf("explicit-state search: %d of %d model transitions were executed on the implementation", h["bfs:transitions_executed"], h["bfs:model_transitions"]))
+			}
+		},
+	}
 }
